@@ -1,0 +1,42 @@
+//go:build verif
+
+package timeout
+
+import "time"
+
+// VerifConfigure sets the idle timeout and the worker limit of the package-global
+// dispatcher and returns the previous values. It exists only in builds with the
+// `verif` tag and is used by the model-based verification harness (properties
+// C12/C13) to exercise idle timeouts of milliseconds and pool limits 1..10.
+// A non-positive argument leaves the corresponding setting unchanged.
+// The wake channel keeps a capacity of at least maxWorkers; it is replaced only
+// while no watcher goroutine is running (nobody can be blocked on the old one).
+func VerifConfigure(idle time.Duration, maxWorkers int) (oldIdle time.Duration, oldMax int) {
+	cc.lock.Lock()
+	defer cc.lock.Unlock()
+	oldIdle, oldMax = cc.idleTimeout, cc.maxWorkers
+	if idle > 0 {
+		cc.idleTimeout = idle
+	}
+	if maxWorkers > 0 {
+		cc.maxWorkers = maxWorkers
+		if cap(cc.wakeCh) < maxWorkers && cc.watchers == 0 {
+			cc.wakeCh = make(chan bool, maxWorkers)
+		}
+	}
+	return
+}
+
+// VerifWatchers returns the number of watcher goroutines the dispatcher accounts for.
+func VerifWatchers() int {
+	cc.lock.Lock()
+	defer cc.lock.Unlock()
+	return cc.watchers
+}
+
+// VerifPending returns the number of futures waiting in the heap.
+func VerifPending() int {
+	cc.lock.Lock()
+	defer cc.lock.Unlock()
+	return cc.futures.Len()
+}
